@@ -247,6 +247,9 @@ func TestVerif_C03_h1enc(t *testing.T) {
 			if err == nil && resp != nil && resp.Err == nil {
 				first = "ok body=" + verifh.Hex(string(resp.Bytes()))
 			}
+			if k > whole {
+				c03WaitClosed(nw, 0) // surplus behind a complete message: let the read loop see it first (see h1over)
+			}
 			second, err2 := c.R().Get("http://c03.invalid/z2")
 			secondOK := err2 == nil && second != nil && second.String() == c03Second
 			nw.closeAll()
